@@ -26,11 +26,11 @@ import (
 // GenDesc is the replayable parameterisation of one generator call.
 type GenDesc struct {
 	Gen string    `json:"gen"`
-	I   []int     `json:"i,omitempty"`  // integer parameters (rows, columns, sides, counts ...)
-	F   []float64 `json:"f,omitempty"`  // float parameters (radius, sizes ...)
-	B   []bool    `json:"b,omitempty"`  // flags
-	P   []float64 `json:"p,omitempty"`  // flattened point list (x y [z]) for paths / point sets
-	P2  []float64 `json:"p2,omitempty"` // second point list (stencil shapes)
+	I   []int     `json:"i,omitempty"`    // integer parameters (rows, columns, sides, counts ...)
+	F   []float64 `json:"f,omitempty"`    // float parameters (radius, sizes ...)
+	B   []bool    `json:"b,omitempty"`    // flags
+	P   []float64 `json:"p,omitempty"`    // flattened point list (x y [z]) for paths / point sets
+	P2  []float64 `json:"p2,omitempty"`   // second point list (stencil shapes)
 	M   string    `json:"mode,omitempty"` // how the point lists were drawn (documentation only; the lists are explicit)
 }
 
@@ -315,13 +315,14 @@ func wfDesc(d Desc) bool {
 var PathModes = []string{"generic", "generic", "generic", "collinear", "one-collinear", "repeated-point", "closed", "backtrack", "axis"}
 
 // randPath draws n path points (x y z flattened) in the given mode:
-//   generic         consecutive points differ, no three consecutive points in line (height strictly increasing, random drift)
-//   collinear       all points on one line, equal or unequal steps
-//   one-collinear   generic, but one interior point lies exactly in line with its two neighbours
-//   repeated-point  generic, but one point occurs twice in a row (a zero-length segment)
-//   closed          generic, but the last point returns to the first
-//   backtrack       p, q, p, ...: a segment walked back exactly
-//   axis            along one coordinate axis (perpendicular helpers degenerate differently per axis)
+//
+//	generic         consecutive points differ, no three consecutive points in line (height strictly increasing, random drift)
+//	collinear       all points on one line, equal or unequal steps
+//	one-collinear   generic, but one interior point lies exactly in line with its two neighbours
+//	repeated-point  generic, but one point occurs twice in a row (a zero-length segment)
+//	closed          generic, but the last point returns to the first
+//	backtrack       p, q, p, ...: a segment walked back exactly
+//	axis            along one coordinate axis (perpendicular helpers degenerate differently per axis)
 func randPath(r *hx.Rng, n int, mode string) []float64 {
 	pts := make([][3]float64, 0, n)
 	x, y, z := float64(r.Range(-2, 2)), float64(r.Range(-2, 2)), float64(r.Range(-2, 2))
@@ -422,6 +423,10 @@ func randPoints2(r *hx.Rng, n int) (pts []float64, mode string) {
 // negative ones included, occasionally larger.
 func RandomGen(r *hx.Rng, big bool) GenDesc {
 	g := GenDesc{Gen: hx.Pick(r, GenKinds)}
+	if r.Chance(1, 4) {
+		// the generators driven by caller-supplied point lists have the largest input space
+		g.Gen = hx.Pick(r, []string{"extrude_polygon", "extrude_circle", "extrude_line", "extrude_shape", "extrude_closed_shape", "bowyer_watson", "bowyer_watson"})
+	}
 	if len(g.Gen) > 8 && g.Gen[:8] == "marching" && (r.Chance(1, 2) || (big && r.Chance(2, 3))) {
 		g.Gen = hx.Pick(r, GenKinds[:17]) // marching is the costly generator: drawn less often
 	}
@@ -527,6 +532,42 @@ func FixedGens(run *hx.Run) {
 	} {
 		run.Count("gen:" + g.Gen)
 		run.Add(GenCase(g))
+	}
+	// every path-driven generator on every degenerate-but-legitimate path class (own fixed PRNG: the
+	// same explicit point lists on every run), stencils with 0-3 points, and the triangulation on
+	// repeated / collinear / coincident / lattice point sets
+	fr := hx.NewRng(20240229)
+	for _, mode := range []string{"collinear", "one-collinear", "repeated-point", "closed", "backtrack", "axis"} {
+		for _, n := range []int{3, 5} {
+			path := randPath(fr, n, mode)
+			for _, g := range []GenDesc{
+				{Gen: "extrude_polygon", I: []int{3}, F: []float64{1}, P: path, M: mode},
+				{Gen: "extrude_circle", I: []int{4}, F: []float64{1}, P: path, M: mode},
+				{Gen: "extrude_line", F: []float64{1, 0}, P: path, M: mode},
+				{Gen: "extrude_shape", P: path, P2: []float64{0, 0, 1, 0, 0, 1}, M: mode},
+				{Gen: "extrude_closed_shape", P: path, P2: []float64{0, 0, 1, 0, 1, 1, 0, 1}, M: mode},
+			} {
+				run.Count("gen:" + g.Gen)
+				run.Count("gen-path:" + mode)
+				run.Add(GenCase(g))
+			}
+		}
+	}
+	generic := []float64{0, 0, 0, 1, 2, 0, 0, 4, 1}
+	for _, shape := range [][]float64{{}, {1, 1}, {0, 0, 1, 0}, {0, 0, 0, 0, 1, 1}} {
+		run.Add(GenCase(GenDesc{Gen: "extrude_shape", P: generic, P2: shape, M: "small-stencil"}))
+		run.Add(GenCase(GenDesc{Gen: "extrude_closed_shape", P: generic, P2: shape, M: "small-stencil"}))
+	}
+	for _, pts := range [][]float64{
+		{0, 0, 4, 0, 0, 3, 4, 0},                               // a repeated point
+		{0, 0, 4, 0, 0, 3, 0, 0, 4, 0, 2, 2},                   // two repeated points
+		{1, 2, 1, 2, 1, 2},                                     // all coincident
+		{0, 0, 1, 1, 2, 2, 3, 3},                               // all collinear
+		{0, 0, 1, 0, 2, 0, 0, 1, 1, 1, 2, 1, 0, 2, 1, 2, 2, 2}, // 3x3 lattice: collinear and cocircular
+		{0, 0, 1, 0},                                           // two points
+	} {
+		run.Count("gen:bowyer_watson")
+		run.Add(GenCase(GenDesc{Gen: "bowyer_watson", P2: pts, M: "fixed-degenerate"}))
 	}
 }
 
